@@ -169,6 +169,13 @@ class QvmEval(EvaluationContext):
         segment, base_idx = self.eval_var(lvalue.base_var)
 
         cell_value = segment.get_cell(base_idx)
+        if base_type.is_array and not base_type.is_static_array and \
+           (cell_value is None or
+                cell_value.type != CellType.REFERENCE):
+            # a dynamic array is a reference to storage allocated when
+            # its DIM statement runs
+            raise EvalError(
+                f'{lvalue.base_var} is not dimensioned yet')
         if cell_value and cell_value.type == CellType.REFERENCE:
             segment = cell_value.value.segment
             base_idx = cell_value.value.index
